@@ -274,14 +274,14 @@ def get_blocks_charge(a) -> Sequence[Sequence[int]]:
     In case of product of abelian symmetries, for each block the individual symmetry
     charges are flattened into a single tuple.
     """
-    return a.struct.t
+    return a.consume_transpose().struct.t
 
 
 def get_blocks_shape(a) -> Sequence[Sequence[int]]:
     """
     Shapes of all native blocks.
     """
-    return a.struct.D
+    return a.consume_transpose().struct.D
 
 
 def get_shape(a, axes=None, native=False) ->  int | Sequence[int]:
@@ -335,6 +335,9 @@ def __contains__(a, key) -> bool:
     key = tuple(_flatten(key)) if (hasattr(key,'__iter__') or hasattr(key,'__next__')) else (key,)
     if a.isdiag:
         return key in a.struct.t or (key+key) in a.struct.t
+    nsym = a.config.sym.NSYM
+    if len(key) == a.ndim_n * nsym:  # key follows the order of tensor legs; account for lazy transpose, as in __getitem__
+        key = sum((key[n * nsym: (n + 1) * nsym] for n in np.argsort(a.trans).tolist()), ())
     return key in a.struct.t
 
 ##################################################
@@ -443,7 +446,8 @@ def to_raw_tensor(a) -> numpy.ndarray | torch.tensor:
     The type of the returned tensor depends on the backend, i.e. ``numpy.ndarray`` or ``torch.tensor``.
     """
     if len(a.struct.D) == 1:
-        return a._data.reshape(a.struct.D[0])
+        x = a._data.reshape(a.struct.D[0])
+        return x if a.isdiag else a.config.backend.permute_dims(x, a.trans)
     raise YastnError('Only tensor with a single block can be converted to raw tensor.')
 
 
